@@ -47,21 +47,25 @@ Definition check_curves (cs : model_key * list float * tconstr F * list (float *
   | _, _ => match rows with [] => true | _ => false end
   end.
 
-(* bounds construction with no identical rows (fix_identical_bnds is then the identity):
+(* bounds construction as coded, degenerate rows included (fix_identical_bnds = fix_identical_row):
    (layout 0..4 = full smooth / full / c smooth / c / tidd, new_bnds, bnds_0, implementation's result) *)
 Definition row_same (a b : float * float) : bool := f_same (fst a) (fst b) && f_same (snd a) (snd b).
 Definition check_bounds (cs : nat * list (float * float) * list (float * float) * option (list (float * float))) : bool :=
   let '(layout, nb, b0, expected) := cs in
-  let idf := fun r : float * float => r in
+  let fixid := fix_identical_row F in
   let got :=
     match layout with
-    | 0 => update_bnds_full_smooth F idf nb b0
-    | 1 => update_bnds_full F idf nb b0
-    | 2 => update_bnds_c_smooth F idf nb b0
-    | 3 => update_bnds_c F idf nb b0
-    | _ => update_bnds_tidd F idf b0
+    | 0 => update_bnds_full_smooth F fixid nb b0
+    | 1 => update_bnds_full F fixid nb b0
+    | 2 => update_bnds_c_smooth F fixid nb b0
+    | 3 => update_bnds_c F fixid nb b0
+    | _ => update_bnds_tidd F fixid b0
     end in
   opt_eqb (list_eqb row_same) got expected.
+
+(* fix_identical_bnds called directly on one row *)
+Definition check_fix_identical (cs : (float * float) * (float * float)) : bool :=
+  let '(r, expected) := cs in row_same (fix_identical_row F r) expected.
 
 (* ModelCoefficients.from_np_arrays called directly: (coef_id as key, array, implementation's coefficients) -- exact *)
 Definition check_from_np (cs : model_key * list float * option (coeffs F)) : bool :=
